@@ -7,7 +7,7 @@ Tie:      real House/Store/Logger/Log objects writing under /verif/.scratch/log/
 Oracle:   an idealised logger written from the property text (dirty flag for 'update', last logged values for
           'change', FIFO queues for 'streak'/'deck'), evaluated on the file contents the real code produced.
 """
-import os, sys, shutil, atexit, itertools, json
+import os, sys, shutil, atexit, itertools, json, copy
 import core
 
 RULES = ["never", "once", "always", "update", "change", "streak", "deck"]
@@ -126,6 +126,8 @@ class Spec:
             self.logs.append({"cfg": lg, "fields": {t: list(fs) for t, _, fs in lg["loggees"]},
                               "cols": None, "recs": [], "ran": False, "dirty": False, "last": None,
                               "judge": True, "header": None, "started": False})
+        self.refs = []            # the container objects producers took once (None: nothing to take)
+        self.probes = []          # what each probe must show
         self.status = "stopped"
         self.nruns = 0
         self.numeric = True       # every run happened at a numeric store stamp
@@ -142,7 +144,7 @@ class Spec:
         for tag, sid, _ in log["cfg"]["loggees"]:
             data = self.share(sid)["data"]
             for f in log["fields"][tag]:
-                cells.append(("v", data[f]) if f in data else ("missing",))
+                cells.append(("v", copy.deepcopy(data[f])) if f in data else ("missing",))
         return cells
 
     @staticmethod
@@ -210,11 +212,11 @@ class Spec:
                         if isinstance(data[f], list):
                             for el in data[f]:
                                 log["recs"].append(self.stamp_text(self.stamp) + "\t" + str(el))
-                            data[f] = []
+                            del data[f][:]           # emptied IN PLACE: it stays the producer's object
                         elif isinstance(data[f], dict):      # a mapping queue holds (key, value) items
                             for k, v in data[f].items():
                                 log["recs"].append(self.stamp_text(self.stamp) + "\t" + str((k, v)))
-                            data[f] = type(data[f])()
+                            data[f].clear()          # emptied IN PLACE
                         else:
                             log["judge"] = False     # not a queue: the property is silent
             elif rule == "deck":
@@ -225,7 +227,7 @@ class Spec:
                         if isinstance(e, dict):
                             log["recs"].append(self.stamp_text(self.stamp) + "".join(
                                 "\t" + (str(e[f]) if f in e else "") for f in log["fields"][tag]))
-                    sh["deck"] = []
+                    del sh["deck"][:]                # emptied IN PLACE
             log["ran"] = True
 
     @staticmethod
@@ -257,14 +259,31 @@ class Spec:
         elif k == "append":
             d = self.share(int(w[1]))["data"]
             if isinstance(d.get(w[2]), list):
-                d[w[2]] = d[w[2]] + [p_elem(w[3])]
+                d[w[2]].append(p_elem(w[3]))
         elif k == "setitem":
             d = self.share(int(w[1]))["data"]
             if isinstance(d.get(w[2]), dict):
-                nd = type(d[w[2]])(d[w[2]])      # a new object: records already promised keep the old value
-                nd[w[3]] = p_atom(w[4])
-                d[w[2]] = nd
-        elif k == "push":
+                d[w[2]][w[3]] = p_atom(w[4])
+        elif k == "hold":                 # ref = share[f], taken once
+            v = self.share(int(w[1]))["data"].get(w[2])
+            self.refs.append((int(w[1]), w[2], v) if isinstance(v, (list, dict)) else None)
+        elif k == "happend":
+            r = self.refs[int(w[1])] if int(w[1]) < len(self.refs) else None
+            if r is not None and isinstance(r[2], list):
+                r[2].append(p_elem(w[2]))
+        elif k == "hsetitem":
+            r = self.refs[int(w[1])] if int(w[1]) < len(self.refs) else None
+            if r is not None and isinstance(r[2], dict):
+                r[2][w[2]] = p_atom(w[3])
+        elif k == "probe":
+            # the object a producer holds is the share's field value for as long as the PRODUCER does not bind the
+            # field to something else; a logger run empties it where it is
+            self.probes.append(",".join(
+                "void" if r is None else "%d:%d" % (self.share(r[0])["data"].get(r[1]) is r[2], len(r[2]))
+                for r in self.refs) or "-")
+        elif k == "dprobe":
+            self.probes.append("1:%d" % len(self.share(int(w[1]))["deck"]))
+        elif k in ("push", "hpush"):
             e = w[2]
             if e[0] == "M":
                 self.share(int(w[1]))["deck"].append(p_map(e[1:], dict, p_elem))
@@ -338,7 +357,10 @@ class CHECK(core.Check):
     N_SEARCH = 1500
     RULE = ("histories: 1-3 shares + a queue share, 1-4 logs (every rule; field selections: default-all / subset / "
             "absent field; one to three loggees), ticks with writes placed before and after the logger run of the tick, "
-            "START re-sent to a running logger, same-value and unstamped writes, in-place list appends and mapping item assignments, values = int/bool/None/str, "
+            "producers that fetch the queue object (list / dict / odict field value, the share's deck) ONCE and append "
+            "through it across runs next to producers that go through the share each time, references gone stale "
+            "because the producer rebound the field, a probe after every run (held object `is` the field value, its "
+            "length), START re-sent to a running logger, same-value and unstamped writes, in-place list appends and mapping item assignments, values = int/bool/None/str, "
             "tuples of length 0-3, lists of atoms/tuples/lists, dict and odict; streak queues that are lists of such "
             "elements or mapping-valued (dict/odict), deck entries with tuple/list-valued fields and non-mapping entries "
             "(None, falsy, tuples, lists), logger periods 1-3 ticks, restarts with writes while "
@@ -348,7 +370,9 @@ class CHECK(core.Check):
             "over {append x2, push mapping, push non-mapping, advance, run} for streak+deck, of length <= 2 / <= 4 over "
             "{append of a 0/1/2/3-tuple and of a nested list, push of a tuple-valued mapping, advance, run} and over "
             "{three item assignments, advance, run} on an odict and a dict queue, of length <= 2 / <= 3 over {write of a "
-            "0/1/2-tuple and an int, advance, run} for always/update/change; non-trivial = some log "
+            "0/1/2-tuple and an int, advance, run} for always/update/change, of length <= 2 / <= 4 over {append / item "
+            "assignment through a held reference and through the share, push through a held deck, rebinding the queue "
+            "field, taking a new reference, advance, run+probe} on a list and an odict queue; non-trivial = some log "
             "wrote a record; distinct by case content")
     TRUSTED = ["correspondence: real ioflo House/Store/Share/Logger/Log objects writing under /verif/.scratch/log/<pid> vs "
                "the Lean driver 'logrules' on the same history; per-control outcome (ok / exception name) and the final "
@@ -373,6 +397,9 @@ class CHECK(core.Check):
                "that mix in streak/deck logs are tied to the code by the correspondence only; a change log that watches a list "
                "which a streak log of the same logger drains between prepare and the first record writes a duplicate "
                "first record (not generated, not covered)",
+               "object identity is modelled for the references a producer takes of a list / mapping field value (Held: live "
+               "or orphaned) and the deck; C22_run_keeps_held_objects: a logger run leaves every reference as it was (the "
+               "queue is emptied in place); deques are not modelled",
                "not modelled: field deletion from a share, binary logs, IOError on open, floats, containers nested deeper "
                "than two levels or with non-string mapping keys, deques, rotation (C23)"]
     TECHNIQUE = ("Lean 4 theorems by induction over histories with invariants: refinement of an idealised logger "
@@ -387,7 +414,9 @@ class CHECK(core.Check):
                   "(C22_update_counterexample, known finding D12); deck: logged ++ pending = initial ++ pushed mappings "
                   "for every history, deck empty after a run; streak: the same for append-only histories on a named "
                   "queue field (elements: atoms, tuples, lists - each logged once as ONE value), and every item of a "
-                  "mapping-valued queue logged once per run; exactly one header at the start of a new file, none added to an existing one. The "
+                  "mapping-valued queue logged once per run; elements appended through a reference to the queue object that "
+                  "the producer took once count like those appended through the share, and a logger run never rebinds "
+                  "a field (the held object stays the field's value and is emptied); exactly one header at the start of a new file, none added to an existing one. The "
                   "model is tied to logging.py by running real Logger/Log objects and the Lean driver on the same "
                   "histories (multi-log loggers, malformed control sequences and exception outcomes included).")
     LEVEL_NOTE = ("Trusted: Lean kernel; axioms propext, Classical.choice, Quot.sound; the hand transcription of "
@@ -432,6 +461,8 @@ class CHECK(core.Check):
         store = house.store
         logger = logging.Logger(name="L", store=store, prefix=root, reuse=True, keep=0)
         shares = {}
+        refs = []        # container objects the producer fetched once
+        decks = {}       # share decks the producer fetched once
 
         def share(sid):
             if sid not in shares:
@@ -488,6 +519,35 @@ class CHECK(core.Check):
             elif k == "push":
                 share(int(w[1])).push(p_entry(w[2]))
                 out.append("ok")
+            elif k == "hold":
+                sh = share(int(w[1]))
+                v = sh[w[2]] if w[2] in sh else None
+                refs.append((sh, w[2], v) if isinstance(v, (list, dict)) else None)
+                out.append("ok")
+            elif k == "happend":
+                r = refs[int(w[1])] if int(w[1]) < len(refs) else None
+                if r is not None and isinstance(r[2], list):
+                    r[2].append(p_elem(w[2]))
+                out.append("ok")
+            elif k == "hsetitem":
+                r = refs[int(w[1])] if int(w[1]) < len(refs) else None
+                if r is not None and isinstance(r[2], dict):
+                    r[2][w[2]] = p_atom(w[3])
+                out.append("ok")
+            elif k == "hpush":
+                sid = int(w[1])
+                if sid not in decks:
+                    decks[sid] = share(sid).deck
+                decks[sid].append(p_entry(w[2]))
+                out.append("ok")
+            elif k == "probe":
+                out.append(",".join("void" if r is None else
+                                    "%d:%d" % ((r[0][r[1]] if r[1] in r[0] else None) is r[2], len(r[2]))
+                                    for r in refs) or "-")
+            elif k == "dprobe":
+                sid = int(w[1])
+                dk = decks.get(sid, share(sid).deck)
+                out.append("%d:%d" % (dk is share(sid).deck, len(dk)))
             elif k == "ctl":
                 try:
                     logger.runner.send(getattr(globaling, CTL[w[1]]))
@@ -524,6 +584,10 @@ class CHECK(core.Check):
             spec.op(line)
         if not spec.numeric or not clock_ok(case["ops"]):
             return []        # None or decreasing store stamp: outside the environment the property assumes
+        # probes: not control outcomes
+        pidx = [i for i, o in enumerate(case["ops"]) if o == "probe" or o.startswith("dprobe ")]
+        seen = [out[i] for i in pidx]
+        out = [("ok" if i in set(pidx) else o) for i, o in enumerate(out[:nops])] + list(out[nops:])
         if any(o == "ERR TypeError" for o in out[:nops]):
             # no value of any type may kill the logger: what it had taken off its queues is then never logged
             return [("format", "a logger run raised TypeError while writing a record (op %d)" %
@@ -531,6 +595,10 @@ class CHECK(core.Check):
         if any(o != "ok" for o in out[:nops]):
             return []        # a control raised: the property speaks about histories the runner survives
         fails = []
+        if all(o == "ok" for o in out[:nops]) and seen != spec.probes:
+            k = [a == b for a, b in zip(seen, spec.probes)].index(False)
+            fails.append(("held", "op %d: the queue objects the producer holds show (is share's value:len) %s, but the "
+                          "logger must empty a queue where it is: %s" % (pidx[k], seen[k], spec.probes[k])))
         for i, log in enumerate(spec.logs):
             cfg = log["cfg"]
             dump = out[nops + i]
@@ -721,6 +789,26 @@ class CHECK(core.Check):
         period = rng.choice([1, 1, 1, 2, 3])
         ticks = rng.choice([1, 2, 3, 4, 5, 6, 8])
         started = False
+        # producers that fetch their queue object ONCE and go on using it, next to those that go through the share
+        nrefs = [0]
+        hdeck = rng.random() < 0.4
+
+        def hold(sid, f):
+            ops.append("hold %d %s" % (sid, f))
+            nrefs[0] += 1
+
+        if rng.random() < 0.6:
+            hold(QS, "q")
+            if rng.random() < 0.3:
+                hold(rng.randrange(nsh), rng.choice(self.FIELDS))
+            if rng.random() < 0.2:
+                hold(QS, "q")
+
+        def probe():
+            if nrefs[0]:
+                ops.append("probe")
+            if hdeck:
+                ops.append("dprobe %d" % QS)
 
         def writes(n):
             for _ in range(n):
@@ -734,8 +822,13 @@ class CHECK(core.Check):
                     # queue one more element: onto a list queue, or as a new / replaced item of a mapping queue
                     # (each is a no-op on the other kind of queue, so both are sent)
                     for _ in range(rng.choice([1, 1, 2])):
-                        ops.append("append %d q %s" % (QS, self.gen_elem(rng)))
-                        ops.append("setitem %d q %s %s" % (QS, rng.choice(["k", "m", "n", "a"]), self.gen_atom(rng)))
+                        if nrefs[0] and rng.random() < 0.6:      # through the object taken once
+                            i = rng.randrange(nrefs[0])
+                            ops.append("happend %d %s" % (i, self.gen_elem(rng)))
+                            ops.append("hsetitem %d %s %s" % (i, rng.choice(["k", "m", "n", "a"]), self.gen_atom(rng)))
+                        else:                                    # through the share
+                            ops.append("append %d q %s" % (QS, self.gen_elem(rng)))
+                            ops.append("setitem %d q %s %s" % (QS, rng.choice(["k", "m", "n", "a"]), self.gen_atom(rng)))
                 elif r < 0.84:
                     f = rng.choice(self.FIELDS)
                     ops.append("append %d %s %s" % (sid, f, self.gen_elem(rng)))
@@ -744,9 +837,12 @@ class CHECK(core.Check):
                     ops.append("%s %d q %s" % (rng.choice(["poke", "write"]), QS,
                                               rng.choice(["L", "Li1,i2", "i5", "sx", "Ui1+i2", "U", "D", "Qk=i1",
                                                           self.gen_queue(rng)])))
+                    if rng.random() < 0.5:        # the producer takes the new object (the old reference is stale)
+                        hold(QS, "q")
                 else:
                     for _ in range(rng.choice([1, 1, 2, 3, 4])):
-                        ops.append("push %d %s" % (QS, self.gen_entry(rng)))
+                        ops.append("%s %d %s" % ("hpush" if hdeck and rng.random() < 0.6 else "push", QS,
+                                                 self.gen_entry(rng)))
 
         if malformed and rng.random() < 0.4:
             ops.append("ctl " + rng.choice(["run", "stop", "ready", "abort"]))
@@ -755,13 +851,16 @@ class CHECK(core.Check):
             if not started:
                 ops.append("ctl start")
                 started = True
+                probe()
             elif t % period == 0:
                 # now and then START is sent again to the running logger (another tasker asks for a start)
                 ops.append("ctl start" if rng.random() < 0.07 else "ctl run")
+                probe()
             writes(rng.choice([0, 0, 0, 1, 1, 2]))
             r = rng.random()
             if r < 0.08 and started:
                 ops.append("ctl stop")
+                probe()
                 writes(rng.choice([0, 1, 2]))
                 if rng.random() < 0.5:
                     ops.append("adv 1")
@@ -814,6 +913,17 @@ class CHECK(core.Check):
                     yield {"kind": "exh", "logs": [{"rule": "streak", "base": "s", "old": None,
                                                     "loggees": [["x", 3, rng_free_fields(q0)]]}],
                            "ops": ["stamp 0", "poke 3 q " + q0, "ctl start"] + list(seq) + ["ctl stop"]}
+        # a producer that keeps the queue object it fetched once (list, odict, the deck), next to one that goes
+        # through the share; the producer may also rebind the field itself (then its old reference is stale)
+        ha = [["happend 0 i1"], ["hsetitem 0 k i1"], ["append 3 q i2"], ["setitem 3 q m i2"], ["hpush 3 Mp=i3"],
+              ["poke 3 q L"], ["hold 3 q"], ["adv 1"], ["ctl run", "probe", "dprobe 3"]]
+        for q0 in ("Li0", "Qa=i0"):
+            for n in range((4 if tier == "thorough" else 2) + 1):
+                for seq in itertools.product(ha, repeat=n):
+                    yield {"kind": "exh", "logs": [{"rule": "streak", "base": "s", "old": None, "loggees": [["x", 3, ["q"]]]},
+                                                   {"rule": "deck", "base": "d", "old": None, "loggees": [["x", 3, ["p"]]]}],
+                           "ops": ["stamp 0", "poke 3 q " + q0, "hold 3 q", "ctl start", "probe", "dprobe 3"] +
+                                  [o for grp in seq for o in grp] + ["ctl stop", "probe", "dprobe 3"]}
         va = ["write 0 value U", "write 0 value Ui1", "write 0 value Ui1+i2", "write 0 value i1", "adv 1", "ctl run"]
         for rule in ("always", "update", "change"):
             for n in range((3 if tier == "thorough" else 2) + 1):
